@@ -60,7 +60,14 @@ def e2eEngine : Engine := fun inp obs =>
                   some s!"the description printed for {fieldNames.getD fld "?"} (hex {res.getD 1 ""}) does not resolve to the cited object"
                 else none
             | _ => some "malformed witness"
-        if let some why := wbad.head? then .viol "C08" why
+        -- F18: JSON strings cannot carry non-UTF-8 bytes; such a file or reference name reaches the JSON
+        -- report with U+FFFD in place of each invalid byte, and that description does not resolve
+        let lossy := (List.range 12).any fun slot =>
+          match (wits.getD slot "-").splitOn ":" with
+          | [_, "0", dh] => dh.toLower.replace "efbfbd" "" != dh.toLower
+          | _ => false
+        if let some why := wbad.head? then
+          (if lossy && wbad.all (fun w => w.endsWith "does not resolve to the cited object") then .known "F18" why else .viol "C08" why)
         else if stderrEmpty != "1" then .viol "C18,C10" "a successful run with --no-progress wrote to stderr"
         else .ok
       | _ => .bad "observed fields"
